@@ -21,6 +21,9 @@ use std::sync::Mutex;
 pub enum Op {
     Set(usize),            // plain write to key i
     SetSafe(usize, i32),   // versioned write relative to the current reported version: -1 (stale), 0 (current), +1
+    /// plain write (false) / versioned write with the version last reported (true) whose value is the one the key
+    /// holds right now: a client re-asserting or retrying; while a conflict is pending it is a later write like any other
+    SetSame(usize, bool),
     ArbiterConnect,
     ArbiterDisconnect,
     /// the arbiter answers the oldest (true) or newest (false) unanswered notice it holds
@@ -115,13 +118,20 @@ fn run_sequence(ops: &[Op], v: &Verdicts, st: &Mutex<Stats>) {
                     break 'ops;
                 }
             }
-            Op::Set(i) | Op::SetSafe(i, _) => {
+            Op::Set(i) | Op::SetSafe(i, _) | Op::SetSame(i, _) => {
                 uniq += 1;
                 let k = KEYS[*i];
                 let (before_val, before_ver) = cur(&mut writer, k);
-                let value = format!("w{}", uniq);
+                // queued proposals are told apart by their values: the held value is proposed again only if it is not
+                // queued already
+                let same = match (op, &model[k].value) {
+                    (Op::SetSame(..), Some(held)) if !model[k].queue.contains(held) => Some(held.clone()),
+                    _ => None,
+                };
+                let value = same.clone().unwrap_or(format!("w{}", uniq));
                 let (line, versioned_conflict) = match op {
-                    Op::Set(_) => (format!("set {} {}", k, value), false),
+                    Op::Set(_) | Op::SetSame(_, false) => (format!("set {} {}", k, value), false),
+                    Op::SetSame(_, true) => (format!("set-safe {} {} {}", k, before_ver.max(0), value), model[k].value.is_some() && before_ver == -2),
                     Op::SetSafe(_, rel) => {
                         let ver = if before_ver < 0 { 0 } else { (before_ver + rel).max(0) };
                         (format!("set-safe {} {} {}", k, ver, value), model[k].value.is_some() && (before_ver == -2 || ver < before_ver))
@@ -134,7 +144,7 @@ fn run_sequence(ops: &[Op], v: &Verdicts, st: &Mutex<Stats>) {
                 let (after_val, after_ver) = cur(&mut writer, k);
                 trace.push(json!({"line": line, "reply": r.resp, "before": [before_val, before_ver], "after": [after_val, after_ver]}));
                 let expect_conflict = in_conflict || versioned_conflict;
-                let ctx = if in_conflict { "key-already-in-conflict" } else if versioned_conflict { "stale-versioned-write" } else { "ordinary-write" };
+                let ctx = if in_conflict && same.is_some() { "key-already-in-conflict/write-of-the-value-it-holds" } else if in_conflict { "key-already-in-conflict" } else if versioned_conflict { "stale-versioned-write" } else { "ordinary-write" };
                 shape.push(if !expect_conflict { "write-ok" } else if !arbiter_ever { "conflict-no-arbiter" } else if arbiter.is_some() { "conflict-arbiter-connected" } else { "conflict-arbiter-away" });
                 if !expect_conflict {
                     // an ordinary accepted write
@@ -308,7 +318,8 @@ fn adm_keys(adm: &mut Session, dbs: &std::sync::Arc<nundb::bo::Databases>, pat: 
 fn random_op(r: &mut Rng) -> Op {
     let k = r.below(2);
     match r.below(14) {
-        0..=2 => Op::Set(k),
+        0..=1 => Op::Set(k),
+        2 => if r.chance(1, 2) { Op::SetSame(k, r.chance(1, 2)) } else { Op::Set(k) },
         3..=6 => Op::SetSafe(k, *r.pick(&[-1, -1, 0, 1])),
         7..=8 => Op::ArbiterConnect,
         9 => Op::ArbiterDisconnect,
@@ -496,8 +507,8 @@ pub fn run(tier: &str) -> i32 {
     let st = Mutex::new(Stats { sequences: 0, steps: 0, shapes: BTreeSet::new(), conflicts: 0, resolves: 0, samples: vec![], cluster_runs: 0, inconclusive: 0 });
     let mut rng = Rng::new(seed());
     let mut cases: Vec<Vec<Op>> = vec![];
-    // systematic: all sequences of length <= 4 (quick) / 5 (thorough) over an 8-step alphabet, after two base writes
-    let alpha = vec![Op::Set(0), Op::SetSafe(0, -1), Op::SetSafe(0, 0), Op::ArbiterConnect, Op::ArbiterDisconnect, Op::Resolve(true), Op::ResolveNewest, Op::Get(0)];
+    // systematic: all sequences of length <= 4 (quick) / 5 (thorough) over a 9-step alphabet, after two base writes
+    let alpha = vec![Op::Set(0), Op::SetSafe(0, -1), Op::SetSafe(0, 0), Op::ArbiterConnect, Op::ArbiterDisconnect, Op::Resolve(true), Op::ResolveNewest, Op::Get(0), Op::SetSame(0, false)];
     let depth = if thorough { 5 } else { 4 };
     let mut idx = vec![0usize; depth];
     'e: loop {
@@ -568,7 +579,7 @@ pub fn run(tier: &str) -> i32 {
     ev.set("pending_conflict_across_snapshot_and_restart_cases", json!(restart_cases));
     ev.evaluations = s.sequences + s.cluster_runs;
     ev.distinct_nontrivial = s.shapes.len() as u64;
-    ev.rule = format!("single node: {} systematic sequences (every sequence of {} steps over {{set, stale set-safe, current set-safe, arbiter connect, arbiter disconnect, resolve the oldest, resolve the newest notice out of order, get}} after two base writes, followed by connect + resolves + a final write) + {} random sequences of 4-14 steps over 2 keys; a scripted arbiter answers the notices it received (echoing op id and version); a conflict-queue model is checked after every step. Cluster: {} Engine N runs (2-3 nodes, arbiter on the primary or on a secondary, 1-3 conflicting writes, resolves oldest first). distinct_nontrivial = distinct compressed sequences of step outcomes (write-ok / conflict with no, connected or absent arbiter / connect with or without pending / resolve last or with more queued)", systematic, depth, n_random, s.cluster_runs);
+    ev.rule = format!("single node: {} systematic sequences (every sequence of {} steps over {{set, stale set-safe, current set-safe, arbiter connect, arbiter disconnect, resolve the oldest, resolve the newest notice out of order, get, set of the value the key holds}} after two base writes, followed by connect + resolves + a final write) + {} random sequences of 4-14 steps over 2 keys; a scripted arbiter answers the notices it received (echoing op id and version); a conflict-queue model is checked after every step. Cluster: {} Engine N runs (2-3 nodes, arbiter on the primary or on a secondary, 1-3 conflicting writes, resolves oldest first). distinct_nontrivial = distinct compressed sequences of step outcomes (write-ok / conflict with no, connected or absent arbiter / connect with or without pending / resolve last or with more queued)", systematic, depth, n_random, s.cluster_runs);
     ev.samples = s.samples.clone();
     ev.set("steps", json!(s.steps));
     ev.set("conflicts_recorded", json!(s.conflicts));
